@@ -164,6 +164,10 @@ def f_args(t, args):
     return np.cos(args["w"] * t)
 
 
+def f_spec(w):
+    return 0.1 * (w > 0)
+
+
 def system(fmt, n=2):
     import qutip
     if n == 2:
@@ -443,6 +447,9 @@ def misc_ops(T, tier):
                                lambda d: _ttm(d)),
             "krylovsolve-e_ops": ({"H": to_fmt(qutip.num(4) + qutip.position(4), fmt), "psi": qutip.basis(4, 1), "tlist": tl, "e_ops": [qutip.num(4)]},
                                   lambda d: qutip.krylovsolve(d["H"], d["psi"], d["tlist"], 3, e_ops=d["e_ops"]).expect),
+            "floquet-spectra-list": ({"H": qutip.QobjEvo([H0, [H1, f_args]], args={"w": 2 * np.pi}), "psi": psi, "tlist": tl, "c_ops": [c[0], c[-1], H1],
+                                      "spectra": [f_spec], "w_th": 0.5, "args": {"w": 2 * np.pi}},
+                                     lambda d: qutip.fmmesolve(d["H"], d["psi"], d["tlist"], c_ops=d["c_ops"], T=1.0, spectra_cb=d["spectra"], w_th=d["w_th"], args=d["args"]).states[-1]),
             "steadystate_floquet": ({"H0": H0, "c_ops": list(c), "Op": H1}, lambda d: qutip.steadystate_floquet(d["H0"], d["c_ops"], d["Op"], w_d=1.0, n_it=2)),
             "qpt": ({"U": S, "basis": [[qutip.qeye(2), qutip.sigmax(), qutip.sigmay(), qutip.sigmaz()]]}, lambda d: qutip.qpt(d["U"], d["basis"])),
             "eigen-family": ({"H": H0, "B": to_fmt(qutip.sigmay() + 0.3 * qutip.sigmap(), fmt)},
